@@ -5,7 +5,7 @@ Require Import PV.Debugger.Proto PV.Debugger.Spec PV.Debugger.Tactics PV.Debugge
 
 (* after the kick the flag is up, so the only deliveries still possible are those already under way *)
 Definition under_way (s : state) : nat :=
-  match p_pc s with PLock _ _ _ | PSend _ _ _ | PFinalSend _ => 1 | _ => 0 end.
+  match p_pc s with PLock _ _ _ | PHeld _ _ _ | PSend _ _ _ | PFinalSend _ => 1 | _ => 0 end.
 
 Definition cnt_inv (s : state) : Prop :=
   kicks s >= 1 ->
